@@ -31,7 +31,7 @@ type kqFacts struct {
 	fdTable   *types.Var // map[int]watch
 	userTable *types.Var // byUser
 	pathTable *types.Var
-	removeFn  *ssa.Function // function containing close(2) of a watch descriptor (for messages)
+	removeFn  *ssa.Function          // function containing close(2) of a watch descriptor (for messages)
 	removal   map[*ssa.Function]bool // functions that reach both the descriptor-table delete and close(2) of a watch descriptor
 }
 
@@ -540,7 +540,9 @@ func c17WatchList(a *An, kf *kqFacts) {
 					}
 					// after success of the add
 					succ, _ := v.Cond.everyConj(func(c Conj) bool {
-						return c.has(func(l Lit) bool { return l.A.Kind == AkNil && !l.Neg && strings.Contains(l.A.Subj, "addWatch") || l.A.Kind == AkNil && !l.Neg && strings.HasSuffix(l.A.Subj, "#1") })
+						return c.has(func(l Lit) bool {
+							return l.A.Kind == AkNil && !l.Neg && strings.Contains(l.A.Subj, "addWatch") || l.A.Kind == AkNil && !l.Neg && strings.HasSuffix(l.A.Subj, "#1")
+						})
 					})
 					if !succ {
 						insOK = false
